@@ -1028,7 +1028,36 @@ fn rand_bounds(r: &mut Rng, n: usize) -> Vec<usize> {
     b.sort();
     b
 }
+/// every truncation of a stream at / around its framing boundaries (inside the continuation marker,
+/// inside the size prefix, inside / right after the metadata, inside / right after the body)
+fn ipc_boundary_cuts(bytes: &[u8]) -> Vec<usize> {
+    let f = walk_ipc(bytes);
+    let legacy = bytes.len() >= 4 && bytes[..4] != [0xff; 4];
+    let hdr = if legacy { 4 } else { 8 };
+    let mut cuts = vec![];
+    let mut pos = 0usize;
+    for fr in &f { for d in 1..=hdr + 1 { cuts.push(pos + d); } pos += hdr + fr.meta.len(); cuts.push(pos - 1); cuts.push(pos); cuts.push(pos + 1); pos += fr.body.len(); cuts.push(pos); }
+    for d in 1..hdr { cuts.push(pos + d); }
+    cuts.retain(|c| *c <= bytes.len());
+    cuts.sort(); cuts.dedup();
+    cuts
+}
 fn gen_ipc_model(tier: &str, r: &mut Rng, emit: &mut dyn FnMut(Case), count: usize) {
+    // all boundary truncations of two streams (one with, one without the EOS marker)
+    for with_eos in [true, false] {
+        let (full, tag) = ipc_stream(r, with_eos);
+        for k in ipc_boundary_cuts(&full) {
+            let bytes = &full[..k];
+            let frames = walk_ipc(bytes);
+            let oracle: Vec<BigInt> = frames.iter().flat_map(|f| [BigInt::from(f.valid as u8), BigInt::from(f.body_len.max(0)), BigInt::from(f.kind), BigInt::from(f.rows)]).collect();
+            for j in 0..3 {
+                let b = if j == 0 { vec![] } else { rand_bounds(r, k) };
+                let args = vec![gbytes(bytes), b.iter().map(|x| BigInt::from(*x)).collect(), oracle.clone()];
+                emit(Case::new("c14.ipc_calls", args.clone(), &["c14.ipc_calls"], format!("ipc calls trunc {tag}")));
+                emit(Case::new("c14.ipc_events", args, &["c14.ipc_events", "c14.ipc_events.spec"], format!("ipc events trunc {tag}")));
+            }
+        }
+    }
     for i in 0..count {
         let with_eos = !r.chance(1, 4);
         let (mut bytes, tag) = ipc_stream(r, with_eos);
@@ -1043,16 +1072,7 @@ fn gen_ipc_model(tier: &str, r: &mut Rng, emit: &mut dyn FnMut(Case), count: usi
             }
             _ => {}
         }
-        if kind == 5 {
-            // truncate at a framing boundary: inside the continuation marker / size prefix, inside or
-            // right after the metadata, inside the body (finish() must report all of them)
-            let f = walk_ipc(&bytes);
-            let mut cuts = vec![];
-            let mut pos = 0usize;
-            for fr in &f { for d in [1usize, 2, 3, 4, 5, 7, 8, 9] { cuts.push(pos + d); } pos += 8 + fr.meta.len(); cuts.push(pos - 1); cuts.push(pos); cuts.push(pos + 1); pos += fr.body.len(); cuts.push(pos); }
-            for d in [1usize, 2, 3, 4, 5, 7] { cuts.push(pos + d); }
-            let k = (*r.pick(&cuts)).min(bytes.len()); bytes.truncate(k);
-        }
+        if kind == 5 { let cuts = ipc_boundary_cuts(&bytes); if !cuts.is_empty() { let k = *r.pick(&cuts); bytes.truncate(k); } }
         let frames = walk_ipc(&bytes);
         let oracle: Vec<BigInt> = frames.iter().flat_map(|f| [BigInt::from(f.valid as u8), BigInt::from(f.body_len.max(0)), BigInt::from(f.kind), BigInt::from(f.rows)]).collect();
         let n = bytes.len();
